@@ -13,7 +13,7 @@ import ast
 
 from ..cfg import CFG, describe_path, find_path
 from ..core import Ctx, Rule
-from ..facts import ShapeError, call_name, dotted, kwarg, norm, walk_no_nested
+from ..facts import ShapeError, call_name, calls_in, dotted, kwarg, norm, walk_no_nested
 from ..tables import Inst, Opaque, Sym, Undecidable, decide, sym_eval
 from .memo_rules import memo_keys_rule
 
@@ -464,6 +464,55 @@ def p1_truthful_flags(ctx: Ctx):
                             describe_path(wit or [], rel))
                 else:
                     ctx.ok(rel, ret, q, construct)
+
+
+def t8_substitutes_are_members(ctx: Ctx):
+    """Where NaN or infinity is not a value of the format, a context may be given a substitute to round it to, and that
+    substitute is returned as it is: "the result is always a member of the format" then rests on the constructor.  In every
+    context family that takes `nan_value` / `inf_value` and builds its format from the same parameters, each of the two
+    is put to the format's own membership test (`representable_in`) on the way to a `ValueError` -- fineness alone says
+    nothing about a bounded range.  (The unbounded fixed-point family has no range, and tests fineness; the exponent-only
+    family states its own bounds; the extended-float family is finding F103.)"""
+    fams = [(CTXDIR + 'mp_float.py', 'MPFloatContext'), (CTXDIR + 'mps_float.py', 'MPSFloatContext'), (CTXDIR + 'mpb_float.py', 'MPBFloatContext'), (CTXDIR + 'mpb_fixed.py', 'MPBFixedContext')]
+    for rel, cls in fams:
+        init = ctx.repo.methods(rel, cls, inherited=False).get('__init__')
+        if init is None:
+            raise ShapeError(f'{cls}.__init__ not found')
+        fn = init[2]
+        params = {a.arg for a in fn.args.args + fn.args.kwonlyargs}
+        if not {'nan_value', 'inf_value'} <= params:
+            raise ShapeError(f'{cls}.__init__ takes no substitutes any more')
+        parents = {c_: p_ for p_ in ast.walk(fn) for c_ in ast.iter_child_nodes(p_)}
+
+        def sources(name: str, depth: int = 0) -> set[str]:
+            """The parameters a local name may stand for: itself, what a `for` target ranges over, what it was assigned from."""
+            out = {name} & params
+            if depth > 3:
+                return out
+            for n in ast.walk(fn):
+                if isinstance(n, ast.For) and name in {t.id for t in ast.walk(n.target) if isinstance(t, ast.Name)}:
+                    out |= {x.id for x in ast.walk(n.iter) if isinstance(x, ast.Name) and x.id in params}
+                    for x in ast.walk(n.iter):
+                        if isinstance(x, ast.Name) and x.id not in params and x.id != name:
+                            out |= sources(x.id, depth + 1)
+                if isinstance(n, ast.Assign) and any(isinstance(t, ast.Name) and t.id == name for t in n.targets):
+                    out |= {x.id for x in ast.walk(n.value) if isinstance(x, ast.Name) and x.id in params}
+            return out
+        tested: set[str] = set()
+        for k in calls_in(fn):
+            if not (isinstance(k.func, ast.Attribute) and k.func.attr == 'representable_in' and len(k.args) == 1):
+                continue
+            # ... in the test of an `if` that raises ValueError
+            p_ = parents.get(k)
+            while p_ is not None and not isinstance(p_, ast.If):
+                p_ = parents.get(p_)
+            if p_ is None or not any(isinstance(s_, ast.Raise) and 'ValueError' in norm(s_) for s_ in p_.body) or not any(x is k for x in ast.walk(p_.test)):
+                continue
+            for nm in [x.id for x in ast.walk(k.args[0]) if isinstance(x, ast.Name)]:
+                tested |= sources(nm)
+        for sub, what in (('nan_value', 'NaN'), ('inf_value', 'an infinity')):
+            ctx.check(sub in tested, rel, fn, f'{cls}.__init__', f'a finite `{sub}` is refused unless the format holds it (`representable_in`)',
+                      f'`{sub}` never reaches the membership test of the format: FixedContext(True, 0, 8, {sub}=Float(1000)) rounds {what} to 1000, outside [-128, 127]')
 
 
 def t7_saturation_value(ctx: Ctx):
@@ -1167,6 +1216,7 @@ RULES = [
     Rule('C01.T5', 'NaN/infinity arms of each _round_at: enabled -> special, no substitute -> raise, substitute -> value', t5_special_arms, 30, 'T,S'),
     Rule('C01.X1', 'every match over a rounding enum is exhaustive or refuses; unhandled overflow modes rejected at construction', x1_enum_exhaustive, 14, 'X'),
     Rule('C01.P1', 'every path from an out-of-range test to a return sets overflow and inexact on the returned value', p1_truthful_flags, 4, 'P'),
+    Rule('C01.T8', 'a NaN / infinity substitute is accepted by a constructor only if the format built from the same parameters holds it', t8_substitutes_are_members, 8, 'T,S'),
     Rule('C01.T7', 'the value an overflow saturates to is defined for both signs (a range without negative values saturates to zero)', t7_saturation_value, 2, 'T'),
     Rule('C01.P4', 'the flags of a result are those of this rounding: a re-wrapped value comes out of the rounding call, or the result states its flags', p4_flags_of_this_rounding, 8, 'P'),
     Rule('C01.P1b', 'EFloatContext._fixup replacements carry the flags of the rounded value', p1b_fixup_keeps_flags, 7, 'P'),
@@ -1195,6 +1245,10 @@ _EF = CTXDIR + 'efloat.py'
 _EXP = CTXDIR + 'exponential.py'
 
 MUTANTS = [
+    Mutant('fixed-substitute-checked-for-fineness-only', CTXDIR + 'mpb_fixed.py', "        for what, sub, enabled in (('NaN', nan_value, enable_nan), ('Inf', inf_value, enable_inf)):\n            if sub is not None and not enabled and sub.is_finite() and not self._fmt.representable_in(sub):\n                raise ValueError(f'Rounding {what} to unrepresentable value')\n",
+           "", 'C01.T8', 'finding F129 before its repair: FixedContext(True, 0, 8, inf_value=Float(1000)) rounds an infinity to 1000'),
+    Mutant('fixed-substitute-range-checked-for-nan-only', CTXDIR + 'mpb_fixed.py', "        for what, sub, enabled in (('NaN', nan_value, enable_nan), ('Inf', inf_value, enable_inf)):", "        for what, sub, enabled in (('NaN', nan_value, enable_nan),):", 'C01.T8'),
+    Mutant('float-nan-substitute-unchecked', CTXDIR + 'mps_float.py', "            if not enable_nan and not fmt.representable_in(nan_value):\n                raise ValueError(f'Rounding NaN to unrepresentable value {nan_value}')\n", "", 'C01.T8'),
     Mutant('overflow-test-skipped-below-the-top-binade', CTXDIR + 'mpb_float.py', "        \"\"\"Checks if `x` is overflowing.\"\"\"\n        if x.s:\n            return x < self.neg_maxval", "        \"\"\"Checks if `x` is overflowing.\"\"\"\n        if x.e < self.emax:\n            return False\n        if x.s:\n            return x < self.neg_maxval", 'C01.T6',
            'seeded change C01e: with bounds [-7, 240], round(-8) is returned as -8 with no flags'),
     Mutant('underflow-follows-the-tie-rule', CTXDIR + 'exponential.py', "        nearest, direction = self.rm.to_direction(s)\n        if nearest:\n            # as with an overflow, a nearest mode takes the out-of-format end\n            # whatever its tie rule: the direction only breaks ties\n            return True\n        match direction:\n            case RoundingDirection.RTZ:\n                return True",
